@@ -201,7 +201,7 @@ fn register_gt<T: GT>(ops: &mut Vec<Op>) {
         .oracle(orf::fma(T::F, sh::<T>(), 2))
         .note("inputs (a,b,c) -> c.sub_product(a,b)"),
     );
-    if T::c_one().i_sqrt().is_some() {
+    if T::ES == 2 {
         ops.push(
             Op::new(nm::<T>("sqrt"), &["C13"], &[k], out, |x, _, _| T::fb(x).i_sqrt().unwrap().tb())
                 .oracle(orf::sqrt(T::F, sh::<T>())),
@@ -398,11 +398,25 @@ fn register_pair<const M: u32, const N: u32>(ops: &mut Vec<Op>) {
     );
 }
 
+/// under Miri only the width named by SPVERIF_MIRI_N is registered (registry construction
+/// itself is interpreted and would take minutes for all 62 instantiations)
+fn width_wanted(n: u32) -> bool {
+    if !cfg!(miri) {
+        return true;
+    }
+    match std::env::var("SPVERIF_MIRI_N") {
+        Ok(v) => v.parse::<u32>().ok() == Some(n),
+        Err(_) => false,
+    }
+}
+
 macro_rules! reg_n {
     ($n:tt, $ops:ident) => {
-        register_gt::<PxE1<$n>>($ops);
-        register_gt::<PxE2<$n>>($ops);
-        register_quire_px::<$n>($ops);
+        if width_wanted($n) {
+            register_gt::<PxE1<$n>>($ops);
+            register_gt::<PxE2<$n>>($ops);
+            register_quire_px::<$n>($ops);
+        }
     };
 }
 macro_rules! pair_inner {
@@ -421,6 +435,9 @@ pub fn register(ops: &mut Vec<Op>) {
     #[cfg(feature = "pairs")]
     {
         crate::all_n!(pair_outer, ops);
+    }
+    if cfg!(miri) {
+        return;
     }
     // bit-for-bit agreement of the full-width instantiations with the fixed types (differential)
     let k32 = Kind::Pat(P32);
